@@ -38,6 +38,11 @@ def seq_term(ex, sv, node, what='sequence'):
         return v.arg(0)
     if k == 'VTuple':
         return v.arg(0)
+    k = ex.known_kind(v) if hasattr(ex, 'known_kind') else None
+    if k == 'VList':
+        return vl.simp(get_elems(v))
+    if k == 'VTuple':
+        return vl.simp(get_items(v))
     ex.safe(z3.Or(is_list(v), is_tuple(v)), 'TypeError', what + ' expected', node)
     return z3.If(is_list(v), get_elems(v), get_items(v))
 
@@ -788,7 +793,7 @@ def _quantify_idx(ex, e, universal):
     """forall_idx / exists_idx over a sequence; a concatenation is quantified part by part (the
     statement about A + [x] is the statement about A and the one about x), which is what the
     solvers do not find by themselves"""
-    seq = seq_term(ex, ex.ev(e.args[0]), e)
+    seq = vl.simp(seq_term(ex, ex.ev(e.args[0]), e))
     lam = e.args[1]
     names = [a.arg for a in lam.args.args]
 
@@ -811,7 +816,10 @@ def _quantify_idx(ex, e, universal):
     parts = _concat_parts(seq)
     if len(parts) == 1:
         i = fresh('i', vl.Int)
-        body = body_at(i, seq[i])
+        elem = seq[i]
+        if z3.is_app(seq) and seq.decl().kind() == z3.Z3_OP_SEQ_EXTRACT:
+            elem = seq.arg(0)[seq.arg(1) + i]
+        body = body_at(i, elem)
         if universal:
             return mk_bool(z3.ForAll([i], z3.Implies(z3.And(i >= 0, i < z3.Length(seq)), body)))
         return mk_bool(z3.Exists([i], z3.And(i >= 0, i < z3.Length(seq), body)))
@@ -825,7 +833,12 @@ def _quantify_idx(ex, e, universal):
             continue
         else:
             i = fresh('i', vl.Int)
-            body = body_at(off + i, p[i])
+            elem = p[i]
+            if z3.is_app(p) and p.decl().kind() == z3.Z3_OP_SEQ_EXTRACT:
+                # element i of the slice S[a:a+k] is S[a+i] (0 <= i < its length): stated over S itself, so
+                # that a fact quantified over S applies by instantiation
+                elem = p.arg(0)[p.arg(1) + i]
+            body = body_at(off + i, elem)
             if universal:
                 out.append(z3.ForAll([i], z3.Implies(z3.And(i >= 0, i < z3.Length(p)), body)))
             else:
@@ -884,13 +897,22 @@ def bi_subset(ex, e):
     return mk_bool(z3.ForAll([k], z3.Implies(a.mem(k), b.mem(k))))
 
 
-def bi_dict_has(ex, e):
+def _dict_arg(ex, e):
+    """the dict a vocabulary function is applied to; None (an optional dict that is absent) reads as
+    the empty dict, so that `implies(d is not None, ...)` can be stated"""
     d = ex.ev(e.args[0])
+    if isinstance(d, V):
+        return SDict(vl.empty_set(), z3.K(Val, VNone), vl.empty_seq())
+    return d
+
+
+def bi_dict_has(ex, e):
+    d = _dict_arg(ex, e)
     return mk_bool(z3.Select(d.dom, ex.evv(e.args[1])))
 
 
 def bi_dict_get(ex, e):
-    d = ex.ev(e.args[0])
+    d = _dict_arg(ex, e)
     k = ex.evv(e.args[1])
     if len(e.args) > 2:
         dv = ex.evv(e.args[2])
@@ -906,7 +928,7 @@ def bi_dict_values_str(ex, e):
 
 
 def bi_dict_keys(ex, e):
-    d = ex.ev(e.args[0])
+    d = _dict_arg(ex, e)
     if d.keys is None:
         raise Unsupported('keys of an unordered dict')
     return V(VList(d.keys))
@@ -1148,8 +1170,30 @@ def comprehension(ex, e, kind):
             inner = inner.args[0].value
         if isinstance(inner, ast.Name) and inner.id == gen.target.id:
             return seq
+    # the same comprehension (element, target, filters, captured values) over the same sequence is the
+    # same term wherever it is written (body, postcondition): its defining function is shared
+    ckey = None
+    try:
+        tnames = {n.id for n in ast.walk(gen.target) if isinstance(n, ast.Name)}
+        used = {n.id for x in [elt] + list(gen.ifs) for n in ast.walk(x) if isinstance(n, ast.Name)} - tnames
+        cap = []
+        for nm in sorted(used):
+            if nm in ex.env:
+                fl = flatten(ex.env[nm])
+                if any(z is None for z in fl):
+                    raise Unsupported('captured value without a term')
+                cap.append((nm, tuple(z.get_id() for z in fl)))
+        ckey = (ast.dump(elt), ast.dump(gen.target), tuple(ast.dump(c) for c in gen.ifs), tuple(cap),
+                None if dview is None else (dview.view, dview.d.val.get_id()))
+    except Unsupported:
+        ckey = None
+    cache = ex.eng.__dict__.setdefault('comp_cache', {})
+    if ckey is not None and ckey in cache:
+        return cache[ckey][0](seq)
     idx = next(_cnt)
     f = z3.RecFunction('comp%d_%s' % (idx, ex.fname.replace('.', '_').replace(':', '_')), SeqVal, SeqVal)
+    if ckey is not None:
+        cache[ckey] = (f, [v for v in ex.env.values()])     # (the captured values are kept alive)
     q = z3.Const('cq%d' % idx, SeqVal)
     pconsts = []
     flat = []
